@@ -37,6 +37,22 @@ Definition order_preserved : Prop :=
     concat (chunks1 ++ chunks2) = wire msgs ->
     exists k, read_all (feed chunks1) = Some (firstn k msgs).
 
+(* both directions of one dmypy exchange.  Request: the client writes one frame, the server's single
+   read_bytes gets exactly it, whatever follows on the wire.  Reply: the server writes zero or more
+   non-final frames (WriteToConn stdout/stderr) and the final response, each through write_bytes; the
+   client loop of dmypy/client.py request() gets exactly those frames, for every segmentation. *)
+Definition request_delivered : Prop :=
+  forall req chunks rest, py_len req < two32 ->
+    concat chunks = encode_frame req ++ rest ->
+    read_n 1 ipc_init (feed chunks) = Some [req].
+
+Definition reply_stream_delivered : Prop :=
+  forall (final : bytes -> bool) pre last chunks rest,
+    Forall (fun m => m <> [] /\ py_len m < two32 /\ final m = false) pre ->
+    last <> [] -> py_len last < two32 -> final last = true ->
+    concat chunks = wire (pre ++ [last]) ++ rest ->
+    read_until_final final (S (length pre)) ipc_init (feed chunks) = Some (pre ++ [last]).
+
 (* ------------------------------------------------------------------------------------------ (b) *)
 From C16 Require Import Serve.
 
